@@ -719,6 +719,41 @@ def run_plan(plan):
                                         if is_injected(e):
                                             raise
                                         stats["probe:checkout_refused"] = 1
+                                # ... and rename patches whose *source*
+                                # (which a rename deletes) lies inside .git,
+                                # named directly, behind a strip prefix, or
+                                # through a symlink the tree brought along
+                                srcs = [b".git/description",
+                                        b".git/info/exclude",
+                                        b".git/HEAD", b".git/config"]
+                                for pth, kind_, _e in flat_entries(
+                                        plan["trees"][i]):
+                                    if kind_ == "link":
+                                        srcs.append(pth + b"/description")
+                                        srcs.append(pth + b"/config")
+                                for j, sp in enumerate(srcs[:10]):
+                                    dst = b"stolen%d-%d" % (i, j)
+                                    hunk = b"" if j % 2 == 0 else (
+                                        b"--- " + quote_path(b"a/" + sp) +
+                                        b"\n+++ " + quote_path(b"b/" + dst) +
+                                        b"\n@@ -1 +1 @@\n-x\n+y\n")
+                                    pt = (b"diff --git " +
+                                          quote_path(b"a/" + sp) + b" " +
+                                          quote_path(b"b/" + dst) +
+                                          b"\nsimilarity index 90%\n"
+                                          b"rename from " +
+                                          quote_path(b"a/" + sp) +
+                                          b"\nrename to " +
+                                          quote_path(b"b/" + dst) +
+                                          b"\n" + hunk)
+                                    try:
+                                        porcelain.apply_patch(
+                                            r, patch_file=io.BytesIO(pt))
+                                    except Exception as e:  # noqa: BLE001
+                                        if is_injected(e):
+                                            raise
+                                        stats["probe:rename_from_dotgit_"
+                                              "refused"] = 1
                             elif op == "am":
                                 porcelain.am(
                                     r, patches=io.BytesIO(make_mbox(make_patch(
